@@ -1,5 +1,6 @@
 import Wx.Job.Sim
 import Wx.Job.Api
+import Wx.Job.Faults
 namespace Wx.Driver.Job
 open Jm
 
@@ -68,5 +69,30 @@ def handleLine (cfg : Fixes) (line : String) : String :=
     id ++ " " ++ String.intercalate " ## " traces
   | _ => "bad-line"
 
+/-- behaviours of the fault scripts: `K<ms>` kill() fails (the child exits by itself after ms; 0 = never), `G` signal()
+    fails, `W` the first wait() fails — a plain behaviour plus a fault overlay -/
+def parseBehF (s : String) : Option (Beh × Jf.Fault) :=
+  match s.toList with
+  | 'K' :: r => let d := (String.ofList r).toNat!; some (if d == 0 then .ignores else .exitsAfter d, { kill := true })
+  | ['G'] => some (.ignores, { signal := true })
+  | ['W'] => some (.ignores, { wait := true })
+  | _ => (parseBeh s).map (·, {})
+
+def traceStrF (y : Jf.FSim) : String := traceStr y.x
+
+/-- the `job` line format, run by the fault-aware task `Jf` -/
+def handleLineF (cfg : Fixes) (line : String) : String :=
+  match line.splitOn " " with
+  | [id, behs, ops] =>
+    let bfs := (behs.splitOn ",").filterMap parseBehF
+    let os := (ops.splitOn ";").map parseOp
+    if os.any Option.isNone then id ++ " bad-op" else
+    let os := os.filterMap (·)
+    let init : Jf.FSim := { x := { st := { cfg := cfg, behs := bfs.map (·.1), hookSet := true, parked := true } }, faults := bfs.map (·.2) }
+    let os := os.flatMap (fun o => match o with | .inject .. => [o, .settle] | _ => [o])
+    let finals := Jf.runOpsF init (os ++ [.settle])
+    let traces := (finals.map traceStrF).eraseDups
+    id ++ " " ++ String.intercalate " ## " traces
+  | _ => "bad-line"
 
 end Wx.Driver.Job
